@@ -389,6 +389,7 @@ def prepare(raw, filt, tag):
     recorded defect, compute ideal acceptance / tables / ItemSpace expectations / state keys"""
     st = MM.Mirror()
     ops, meta = [], []
+    debris = False      # a failed ItemSpace construction stays registered in _named_itemspaces (C07/C13 domain)
     for op in raw:
         k = op[0]
         if k == "obs":
@@ -399,6 +400,7 @@ def prepare(raw, filt, tag):
                     for t in trig:
                         filt["item:" + t] += 1
                     continue
+                debris = debris or scope_err
                 roots.append(list(root))
                 dynexp.append({"root": list(root), "ok": not scope_err, "entries": [[list(q), n, list(e)] for q, n, e in entries]})
             key = json.dumps([sorted((list(k_), [list(b) for b in v]) for k_, v in st.bases.items()),
@@ -411,6 +413,8 @@ def prepare(raw, filt, tag):
             continue
         if k == "roundtrip":
             trig = MM.roundtrip_triggers(st)
+            if debris:
+                trig = trig | {"after_failed_itemspace"}
             if trig:
                 for t in trig:
                     filt["roundtrip:" + t] += 1
